@@ -3,6 +3,7 @@
 from __future__ import annotations
 
 import hashlib
+import os
 import time
 
 from dsim import oracles, runner
@@ -38,7 +39,9 @@ def execute_run(plan: dict, schedule: list | None = None, timeout_s: int = 900) 
     import shutil
     import tempfile
 
-    xla_cache = tempfile.mkdtemp(prefix="xla-", dir=runner.scratch_root())
+    run_root = tempfile.mkdtemp(prefix="run-", dir=runner.scratch_root())
+    xla_cache = os.path.join(run_root, "xla")
+    os.makedirs(xla_cache)
     for i, inc in enumerate(plan["incarnations"]):
         sched = dict(inc["sched"])
         if schedule is not None:
@@ -54,7 +57,10 @@ def execute_run(plan: dict, schedule: list | None = None, timeout_s: int = 900) 
             "script_seed": plan.get("script_seed", 0),
         }
         try:
-            rep = runner.run_incarnation(inc_plan, inc["hashseed"], timeout_s=timeout_s, xla_cache=xla_cache)
+            # the session's disk survives restarts; the isolated reference incarnation is another machine
+            disk = os.path.join(run_root, "disk-iso" if inc.get("iso") else "disk")
+            rep = runner.run_incarnation(inc_plan, inc["hashseed"], timeout_s=timeout_s, xla_cache=xla_cache, disk=disk)
+            rep.setdefault("probes", {})["files_on_disk_after"] = sum(len(f) for _, _, f in os.walk(disk))
         except runner.IncarnationFailure as e:
             harness_error = f"incarnation {i}: {e}"
             break
@@ -69,7 +75,7 @@ def execute_run(plan: dict, schedule: list | None = None, timeout_s: int = 900) 
         if not rep.get("ok"):
             harness_error = f"incarnation {i}: {rep.get('harness_error')}\n{rep.get('stderr_tail', '')}"
             break
-    shutil.rmtree(xla_cache, ignore_errors=True)
+    shutil.rmtree(run_root, ignore_errors=True)
     records.sort(key=lambda r: r["id"])
     out = {
         "run_seed": plan.get("run_seed"),
